@@ -15,8 +15,27 @@
      [lower_goto_time]  src/llir/lower/intrinsic.rs populate_time_args (missing `@ t` = timeof(label))
 
    Definitions only; proofs are in Proofs/Time.v. *)
-From TV Require Import Base.I32.
+From TV Require Import Base.I32 Gen.TimeLabels.
 Open Scope Z_scope.
+
+(* tie 1: gen/timelabels.py reads the shape of the rules out of the source (Gen/TimeLabels.v); the
+   definitions below hard-code that shape, and [source_shape_ok] says the source still has it *)
+Definition emit_rule_eqb (a b : emit_rule) : bool :=
+  match a, b with
+  | RuleCrossZero, RuleCrossZero | RuleDecreaseAbs, RuleDecreaseAbs | RuleIncreaseRel, RuleIncreaseRel => true
+  | _, _ => false
+  end.
+Fixpoint rules_eqb (a b : list emit_rule) : bool :=
+  match a, b with
+  | [], [] => true
+  | x :: r, y :: s => emit_rule_eqb x y && rules_eqb r s
+  | _, _ => false
+  end.
+Definition source_shape_ok : bool :=
+  gen_abs_sets && match gen_rel_rule with RelWrappingAdd => true | RelUnrec => false end &&
+  (gen_root_start =? 0) && gen_label_applies_before_record &&
+  (gen_emitter_start =? 0) && rules_eqb gen_emit_rules [RuleCrossZero; RuleDecreaseAbs; RuleIncreaseRel] &&
+  gen_offset_label_placement && gen_r_label_rule && gen_goto_time_rule.
 
 (* ------------------------------------------------------------------------------------------ *)
 (* source statements, as far as time labels are concerned *)
